@@ -172,6 +172,33 @@ func runOpts(c *Ctx) {
 			}
 			fr, ok := core.AsFieldLoad(mu.Map)
 			if !ok || fr.Owner != "argBuilder" {
+				// the table handed to a private step (`setSubtype(a.namedSub, name, st, rv)`): judged at each call site
+				prm, isP := core.Strip(mu.Map).(*ssa.Parameter)
+				if !isP || !p.PrivateHelper(prm.Parent()) || core.TypeStr(mu.Key.Type()) != "string" {
+					return
+				}
+				mi := paramIndex(prm)
+				for _, site := range p.Callers(prm.Parent()) {
+					as := site.Common().Args
+					if mi < 0 || mi >= len(as) {
+						continue
+					}
+					sfr, ok := core.AsFieldLoad(as[mi])
+					if !ok || sfr.Owner != "argBuilder" {
+						continue
+					}
+					key := mu.Key
+					if kp, isKP := core.Strip(key).(*ssa.Parameter); isKP && kp.Parent() == prm.Parent() {
+						if ki := paramIndex(kp); ki >= 0 && ki < len(as) {
+							key = as[ki]
+						}
+					}
+					nLower++
+					okk := c.lowered(key, 0)
+					c.R.Func(core.FuncName(site.Parent()))
+					c.R.Add("LOWER", fmt.Sprintf("%s|argBuilder.%s key", core.FuncName(site.Parent()), sfr.Field), core.FuncName(site.Parent()), p.InstrPos(site), okk,
+						"keys of the option builder's name-keyed maps are lower-cased", ternary(okk, "key is a strings.ToLower result", "key "+core.Path(key)+" is not provably lower-cased"))
+				}
 				return
 			}
 			if core.TypeStr(mu.Key.Type()) != "string" {
@@ -1543,6 +1570,19 @@ func (c *Ctx) runReject(walker *ssa.Function) {
 						for _, l2 := range core.Lits(core.Guards(r.Block())) {
 							if l2.Kind == "cmp" && l2.Op == token.LSS && l2.Pol {
 								ok = true
+							}
+						}
+						// … also in its rotated form (`for i := range count`), where the test sits in the latch block
+						for _, lp := range naturalLoops(r.Parent()) {
+							// an error return leaves the loop: its block is not part of the cycle, but it hangs off a body block
+							in := false
+							for b := r.Block(); b != nil && !in; b = b.Idom() {
+								in = lp.body[b]
+							}
+							if in {
+								if kind, regular, _ := classifyLoop(c, lp); regular && kind == "counted" {
+									ok = true
+								}
 							}
 						}
 					}
